@@ -80,7 +80,8 @@ fn scenarios(tier: Tier) -> Vec<(Program, usize)> {
     };
     let mut n = 0usize;
     for fl in [Fl::Sync, Fl::Async] {
-        for kind in 0..tier.pick(4, 6) {
+        let kinds: Vec<usize> = tier.pick(vec![0, 1, 2, 3, 6, 7], vec![0, 1, 2, 3, 4, 5, 6, 7]);
+        for kind in kinds {
             n += 1;
             let mut steps = vec![Step { op: w(1, 1, false, Algo::Sha256), fl: Fl::Sync }];
             let victim_op = match kind {
@@ -99,6 +100,19 @@ fn scenarios(tier: Tier) -> Vec<(Program, usize)> {
                     w(0, 0, false, Algo::Sha256)                      // re-write after removal
                 }
                 4 => w(0, 0, false, Algo::Sha256),                    // plain first write, one-shot
+                6 => {
+                    // the previous entry is an index line of more than 64 KiB
+                    let mut big = WriteSpec::simple(Some(0), 1);
+                    big.entry = WEntry::Opts;
+                    big.raw_metadata = Some(crate::gen::huge_raw_meta(30_000, 9));
+                    steps.push(Step { op: Op::Write(big), fl: Fl::Async });
+                    w(0, 0, true, ALGOS[n % 5])
+                }
+                7 => {
+                    // the data being written is already stored and shared with the other key
+                    steps.push(Step { op: w(1, 0, false, Algo::Sha256), fl: Fl::Sync });
+                    w(0, 0, false, Algo::Sha256)
+                }
                 _ => {
                     steps.push(Step { op: w(0, 2, true, Algo::Sha384), fl: Fl::Async });
                     Op::RemoveOpts { key: 0, fully: false }
